@@ -60,9 +60,17 @@ namespace engine
         return ret;                      \
     }
 
+#ifdef CHESSPP_VERIF
+#define VERIF_EXIT(kind, ret) \
+    if (verif::on_exit) verif::on_exit(this, kind, info, ret);
+#else
+#define VERIF_EXIT(kind, ret)
+#endif
+
 #define EXIT_SEARCH(val)                                            \
     {                                                               \
         Value ret = (val);                                          \
+        VERIF_EXIT(0, ret)                                          \
         LOG_DEBUG("[%d] EXIT SEARCH score=%ld", info->_ply, ret); \
         return ret;                                                 \
     }
@@ -70,6 +78,7 @@ namespace engine
 #define EXIT_QSEARCH(val)                                                       \
     {                                                                           \
         Value ret = (val);                                                      \
+        VERIF_EXIT(1, ret)                                                      \
         LOG_DEBUG("[%d] EXIT QUIESCENCE_SEARCH score=%ld", info->_ply, ret);  \
         return ret;                                                             \
     }
